@@ -21,7 +21,8 @@ out.append("Two rounds of ten fresh sub-agents (one per claimed property per rou
 out.append("| id | property | detected by (quick tier) | first built? |")
 out.append("|---|---|---|---|")
 for m in rows:
-    det = ",".join(m["detected_by"]) or ("quiet (control, see below)" if m.get("expect") == "missed" else "MISSED")
+    det = ",".join(m["detected_by"]) or ("quiet (control, see below)" if m.get("expect") == "missed" else
+                                         ("thorough tier only: " + ",".join(m.get("detected_by_thorough", [])) if m.get("expect") == "quick-may-miss" else "MISSED"))
     first = "no - strengthened" if (m.get("history") and "MISSED" in m["history"]) else ("n/a" if m.get("expect") == "missed" else "yes")
     out.append(f"| {m['id']} | {m['property']} | {det} | {first} |")
 out.append(f"\n{n} kept changes: {n - len(missed_first) - len(controls)} detected by the checks as they stood when the change arrived, "
